@@ -147,4 +147,26 @@ def eval (s : Schedule) (x : Rat) : Rat :=
     | .fin t => c + polyInc s.rates b (x - t)
     | _ => c
 
+/-- `piecewise_polynomial(x, thresholds, rates, intercepts, rates_multiplier = m)`: the pre-computed
+intercepts are not used; the intercept of the selected piece is rebuilt from `intercepts[0]` by
+adding, for every piece `i - 1` with `2 ≤ i < num_intervals` that lies completely below the
+selected one (`selected_bin ≥ i`), `m * Σ_p rates[p][i-1] * (thresholds[i] - thresholds[i-1])^(p+1)`;
+then `m * Σ_p rates[p][bin] * (x - thresholds[bin])^(p+1)` is added if `bin > 0`.
+(Thresholds `1 … num_intervals - 1` are finite in every well-formed schedule; an infinite one
+would give `inf`/`nan` in the code and contributes nothing here.) -/
+def evalMul (s : Schedule) (m x : Rat) : Rat :=
+  let b := selectedBin s.thresholds x
+  let n := s.thresholds.length - 1
+  let base := (List.range (n - 2)).foldl (fun acc k =>
+      let i := k + 2
+      if i ≤ b then
+        match s.thresholds.getD (i - 1) .negInf, s.thresholds.getD i .posInf with
+        | .fin l, .fin u => acc + m * polyInc s.rates (i - 1) (u - l)
+        | _, _ => acc
+      else acc) (s.intercepts.getD 0 0)
+  if b = 0 then base
+  else match s.thresholds.getD b .negInf with
+    | .fin t => base + m * polyInc s.rates b (x - t)
+    | _ => base
+
 end GV.Piecewise
